@@ -1,0 +1,5 @@
+//go:build !verif
+
+package tokenizer
+
+func verifPoolGate(point string) {}
